@@ -1,5 +1,7 @@
 (* C01/C02 part "stream" - executable model of serializer/stream (read.go, write.go, byte_buffer.go) after the
-   fix: commits 93eaa3d (D01c: io.ReadFull) and 251eda6 (D02c: negative sizes rejected, buffer grows in 4 KiB chunks).
+   fix: commits 93eaa3d (D01c: io.ReadFull), 251eda6 (D02c: negative sizes rejected, no allocation by the prefix alone)
+   and c8478d2 (ReadBytes: exact allocation up to 1 MiB, above that a 1 MiB buffer that doubles only when it is full;
+   sizeToInt: a length prefix that does not fit int is an error).
    An io.Reader is (remaining data, script of events): every Read call with a non-empty buffer of p bytes pops one
    event and returns min(p, chunk, remaining) bytes (Give chunk), ceil(p/2) bytes (Half = iotest.HalfReader) or the
    reader's own error (Fault); when the script is exhausted the reader behaves like bytes.Reader.  At end of data a
@@ -81,44 +83,50 @@ Definition read_t (t : tk) (r : reader) : rres sval :=
   | (Panic, r', c) => (Panic, r', c)
   end.
 
-(* readFixedSize: the prefix converted to int (a uint64 prefix >= 2^63 becomes negative) *)
-Definition read_fixed_size (l : lpt) (r : reader) : rres Z :=
+(* readFixedSize + sizeToInt: a prefix that does not fit int (a uint64 prefix >= 2^63) is an error, for every helper
+   that reads a size prefix; the size is therefore a natural number *)
+Definition read_fixed_size (l : lpt) (r : reader) : rres N :=
   match l with
   | LBad => (Panic, r, 0%N)
   | _ => match read_fixed (lpt_size l) r with
-         | (Ok bs, r', c) => (Ok (to_i64 (Z.of_N (le_dec bs))), r', c)
+         | (Ok bs, r', c) => let v := le_dec bs in
+                             if (Z.to_N MaxInt64 <? v)%N then (Err ESizeRange, r', c) else (Ok v, r', c)
          | (Err e, r', c) => (Err e, r', c)
          | (Panic, r', c) => (Panic, r', c)
          end
   end.
 
-Definition CHUNK : Z := 4096.
+Definition PREALLOC : Z := 1048576.      (* readBytesPreallocLimit = 1 << 20 *)
 
-(* the loop of ReadBytes; running out of fuel is reported as Panic (the theorems show it never happens) *)
-Fixpoint read_bytes_loop (fuel : nat) (len : Z) (acc : list N) (r : reader) (c : N) : rres (list N) :=
-  let have := Z.of_nat (length acc) in
-  if (len <=? have)%Z then (Ok acc, r, c) else
-  match fuel with
-  | O => (Panic, r, c)
-  | S f =>
-      let chunk := Z.min (len - have) CHUNK in
-      let c' := (c + Z.to_N chunk)%N in
-      let '(got, r', e) := read_full (Z.to_nat chunk) (rdata r) (revs r) in
-      match e with
-      | RNil => read_bytes_loop f len (acc ++ got) r' c'
-      | _ => (Err (io_err (acc ++ got) e), r', c')
+(* the loop of ReadBytes: [cap] = len(readBytes), [acc] = readBytes[:received], [c] = everything handed to make so far.
+   Every round fills the rest of the buffer with one io.ReadFull; a full buffer that is still shorter than [len] is
+   replaced by one of received + min(received, len - received) bytes.
+   Running out of fuel is reported as Panic (the theorems show it never happens). *)
+Fixpoint read_bytes_loop (fuel : nat) (len cap : Z) (acc : list N) (r : reader) (c : N) : rres (list N) :=
+  let '(got, r', e) := read_full (Z.to_nat (cap - Z.of_nat (length acc))) (rdata r) (revs r) in
+  let acc' := acc ++ got in
+  match e with
+  | RNil =>
+      let received := Z.of_nat (length acc') in
+      if (received =? len)%Z then (Ok acc', r', c) else
+      match fuel with
+      | O => (Panic, r', c)
+      | S f => let cap' := (received + Z.min received (len - received))%Z in
+               read_bytes_loop f len cap' acc' r' (c + Z.to_N cap')%N
       end
+  | _ => (Err (io_err acc' e), r', c)
   end.
 
 Definition read_bytes (len : Z) (r : reader) : rres (list N) :=
   if (len <? 0)%Z then (Err ENegLen, r, 0%N)
-  else read_bytes_loop (S (length (rdata r))) len [] r 0%N.
+  else let cap := Z.min len PREALLOC in
+       read_bytes_loop (S (length (rdata r))) len cap [] r (Z.to_N cap).
 
 Definition read_bytes_with_size (l : lpt) (r : reader) : rres (list N) :=
   match read_fixed_size l r with
   | (Ok size, r', c) =>
-      if (size =? 0)%Z then (Ok [], r', c)
-      else let '(x, r2, c2) := read_bytes size r' in (x, r2, (c + c2)%N)
+      if (size =? 0)%N then (Ok [], r', c)
+      else let '(x, r2, c2) := read_bytes (Z.of_N size) r' in (x, r2, (c + c2)%N)
   | (Err e, r', c) => (Err e, r', c)
   | (Panic, r', c) => (Panic, r', c)
   end.
@@ -147,7 +155,7 @@ Definition read_object (fixedLen : Z) (f : cb) (r : reader) : rres sval :=
 
 Definition read_object_with_size (l : lpt) (f : cb) (r : reader) : rres sval :=
   match read_fixed_size l r with
-  | (Ok size, r', c) => let '(x, r2, c2) := read_object size f r' in (x, r2, (c + c2)%N)
+  | (Ok size, r', c) => let '(x, r2, c2) := read_object (Z.of_N size) f r' in (x, r2, (c + c2)%N)
   | (Err e, r', c) => (Err e, r', c)
   | (Panic, r', c) => (Panic, r', c)
   end.
@@ -165,19 +173,19 @@ Definition coll_body (k : nat) (st : coll_state) : coll_state + (option eclass *
 
 Definition read_collection (l : lpt) (k : nat) (r : reader) : rres sval :=
   match read_fixed_size l r with
-  | (Ok (Zpos p), r', c) =>
+  | (Ok (Npos p), r', c) =>
       match iter_until p (coll_body k) (r', [], c) with
       | inl (r2, acc, c2) => (Ok (SVList (rev acc)), r2, c2)
       | inr (Some e, r2, _, c2) => (Err e, r2, c2)
       | inr (None, r2, _, c2) => (Panic, r2, c2)
       end
-  | (Ok _, r', c) => (Ok (SVList []), r', c)           (* zero or negative count: the range loop does not run *)
+  | (Ok N0, r', c) => (Ok (SVList []), r', c)          (* count 0 (a count >= 2^63 is an error of readFixedSize) *)
   | (Err e, r', c) => (Err e, r', c)
   | (Panic, r', c) => (Panic, r', c)
   end.
 
 (* PeekSize on a seekable reader: reads the prefix and seeks back (only on success) *)
-Definition peek_size (l : lpt) (r : reader) : rres Z :=
+Definition peek_size (l : lpt) (r : reader) : rres N :=
   match read_fixed_size l r with
   | (Ok v, r', c) => (Ok v, mkR (rdata r) (revs r'), c)
   | x => x
@@ -202,7 +210,7 @@ Definition rop_run (o : rop) (r : reader) : rres sval :=
   | RObject len f => read_object len f r
   | RObjectSize l f => read_object_with_size l f r
   | RCollection l k => read_collection l k r
-  | RPeek l => lift SVNum (peek_size l r)
+  | RPeek l => lift (fun n => SVNum (Z.of_N n)) (peek_size l r)
   end.
 
 (* ---------- write side ---------- *)
